@@ -259,6 +259,6 @@ def generate() -> tuple[str, list[dict]]:
         # int -> T -> int round trip through arithmetic with an int on the other side
         g.add(f"v_mix_{t}", f"{t}()+int", XY("int", "int"), "int", [f"return int({t}(x)) + y"],
               req=[t, None])
-    g.add("v_float__floordiv_int", "float(x//y)", XY("int", "int"), "float", ["return float(x // y)"])
-    g.add("v_int__truediv", "int(x/y)", XY("int", "int"), "int", ["return int(x / y)"])
+    g.add("v_float__floordiv_int", "float(x//y)", XY("int", "int"), "float", ["return float(x // y)"], fam="//")
+    g.add("v_int__truediv", "int(x/y)", XY("int", "int"), "int", ["return int(x / y)"], fam="/")
     return "\n".join(g.lines) + "\n", g.specs
